@@ -589,8 +589,49 @@ typedef unsigned long uintptr_t;
         (((uintptr_t)dp < (uintptr_t)sp) &&                                    \
          ((uintptr_t)sp < (uintptr_t)(dp + dlen)))
 
+
+/* Find a %n conversion in any spelling: flags, field width, precision, length
+   modifier or positional argument between the '%' and the 'n'; "%%" is an
+   escaped percent sign.  Returns a pointer to its '%', or NULL. */
+static inline char *safec_fmt_find_n(const char *fmt) {
+    const char *p = fmt;
+    while ((p = strchr(p, '%')) != NULL) {
+        const char *start = p++;
+        if (*p == '%') {
+            p++;
+            continue;
+        }
+        while (*p && strchr("-+ #0'I123456789$*.hlLqjzt", *p)) {
+            p++;
+        }
+        if (*p == 'n') {
+            return (char *)start;
+        }
+    }
+    return NULL;
+}
+
 /* platform quirks */
 #ifndef SAFECLIB_DISABLE_WCHAR
+
+/* wide variant of safec_fmt_find_n */
+static inline wchar_t *safec_wfmt_find_n(const wchar_t *fmt) {
+    const wchar_t *p = fmt;
+    while ((p = wcschr(p, L'%')) != NULL) {
+        const wchar_t *start = p++;
+        if (*p == L'%') {
+            p++;
+            continue;
+        }
+        while (*p && wcschr(L"-+ #0'I123456789$*.hlLqjzt", *p)) {
+            p++;
+        }
+        if (*p == L'n') {
+            return (wchar_t *)start;
+        }
+    }
+    return NULL;
+}
 
 /* mingw32 3.15.2 */
 #if defined(_WIN32) && defined(__MINGW32_MAJOR_VERSION) &&                     \
